@@ -33,6 +33,9 @@ class TypeNormalizer:
         if isinstance(t, str):
             t = eval(t, getattr(fn, "__globals__", {}))
 
+        if isinstance(t, typing._AnnotatedAlias):
+            t = t.__origin__
+
         if t is type:
             t = type[object]
         elif t is typing.Any:
@@ -41,13 +44,13 @@ class TypeNormalizer:
             t = object
         elif t in UnionTypes:
             return type[t]
-        elif isinstance(t, typing._AnnotatedAlias):
-            t = t.__origin__
 
         origin = getattr(t, "__origin__", None)
         if UnionType and isinstance(t, UnionType):
             return self(t.__args__, fn)
         elif origin is type:
+            if t.__args__ == (typing.Any,):
+                return type[object]
             return t
         elif origin and getattr(t, "__args__", None) is None:
             return t
